@@ -28,6 +28,8 @@ import worlds as W
 
 VT_PY = "/opt/veriftools/pyvenv/bin/python"
 ENV = {"CELER_LOG": "critical", "CELER_LOG_LOCAL": "critical"}
+# many short TLC runs in parallel: keep each JVM's helper threads few
+JVM = {"JAVA_TOOL_OPTIONS": "-XX:ParallelGCThreads=2 -XX:CICompilerCount=2"}
 MC_WORLDS = ["mc_rzp", "mc_imp", "nested3"]
 F_NAV_1 = "rotated-daughter-setdir-on-shallower-surface"
 
@@ -50,10 +52,10 @@ def design(ctx, worlds_by_name, with_guard=True):
     jobs = []
     for name in MC_WORLDS:
         jobs.append(dict(module="LatticeNavMC", cfg="LatticeNavMC_fixed", workers=4,
-                         env={"WORLD": worlds_by_name[name]}, timeout=1500, heap="6g"))
+                         env=dict(JVM, WORLD=worlds_by_name[name]), timeout=1500, heap="6g"))
     if with_guard:
         jobs.append(dict(module="LatticeNavMC", cfg="LatticeNavMC_ascoded", workers=2,
-                         env={"WORLD": worlds_by_name["mc_rzp"]}, timeout=1500, heap="6g"))
+                         env=dict(JVM, WORLD=worlds_by_name["mc_rzp"]), timeout=1500, heap="6g"))
     res = vlib.tlc_parallel(jobs, maxpar=4)
     st = tr = 0
     info = []
@@ -153,9 +155,12 @@ def replay(ctx, files, mode, prefixes, explore_bound=0, maxcalls=400000, nwalks=
     jobs = []
     for wf in files:
         name = os.path.splitext(os.path.basename(wf))[0]
-        if mode in ("explore", "both"):
+        if mode == "both":
+            jobs.append((wf, name, "explore+walk", ["both", wf, explore_bound, maxcalls, ctx.seed, nwalks, walklen,
+                                                     ctx.path(name + ".ndjson")]))
+        elif mode == "explore":
             jobs.append((wf, name, "explore", ["explore", wf, explore_bound, maxcalls, ctx.path(name + ".x.ndjson")]))
-        if mode in ("walk", "both"):
+        else:
             jobs.append((wf, name, "walk", ["walk", wf, ctx.seed, nwalks, walklen, ctx.path(name + ".w.ndjson")]))
 
     def run(job):
@@ -175,7 +180,7 @@ def replay(ctx, files, mode, prefixes, explore_bound=0, maxcalls=400000, nwalks=
                 continue
             raise vlib.Broken("vnav %s on %s failed (exit %d): %s" % (kind, name, rc, err))
         tj.append(dict(module="LatticeNavTrace", cfg="LatticeNavTrace", workers=1,
-                       env={"WORLD": wf, "TRACE": args[-1]}, timeout=3000, heap="3g"))
+                       env=dict(JVM, WORLD=wf, TRACE=args[-1]), timeout=3000, heap="3g"))
     res = vlib.tlc_parallel([j for j in tj if j], maxpar=maxpar)
     it = iter(res)
     tot = {"traces": 0, "calls": 0, "judged": 0, "unjudged": 0, "inits": 0, "safety": 0, "safety_pos": 0,
@@ -214,7 +219,7 @@ def replay(ctx, files, mode, prefixes, explore_bound=0, maxcalls=400000, nwalks=
         for k in ("Find", "FindMax", "MoveI", "MoveB", "Cross", "SetDir", "Safety", "MoveTo"):
             tot["per_op"][k] = tot["per_op"].get(k, 0) + st[k]
         recs = None
-        if kind == "explore":
+        if kind.startswith("explore"):
             stats = _last_stats(trace)
             if stats:
                 tot["states"] += stats["states"]
@@ -248,9 +253,8 @@ def replay(ctx, files, mode, prefixes, explore_bound=0, maxcalls=400000, nwalks=
                 ctx.violation(text, tags=tags, files=[wf, script])
             else:
                 tot["other_clauses"].add(clause)
-        if len(samples) < 4 and kind == "walk":
-            recs = recs or vlib.read_ndjson(trace)
-            samples.append({"world": name, "ops": [brief(x) for x in recs[1:9]]})
+        if len(samples) < 3:
+            samples.append({"world": name, "ops": [brief(x) for x in _tail_records(trace, 9)]})
     tot["other_clauses"] = sorted(tot["other_clauses"])
     return tot, samples
 
@@ -274,11 +278,198 @@ def _closed(trace):
 
 def _last_stats(trace):
     try:
-        with open(trace, "rb") as fh:
-            fh.seek(max(0, os.path.getsize(trace) - 600))
-            for line in fh.read().decode(errors="replace").splitlines():
-                if '"Stats"' in line:
+        with open(trace) as fh:
+            for line in fh:
+                if line.startswith('{"bound"') or '"e":"Stats"' in line:
                     return json.loads(line)
     except (OSError, ValueError):
         pass
     return None
+
+
+def _tail_records(trace, n):
+    try:
+        with open(trace, "rb") as fh:
+            fh.seek(max(0, os.path.getsize(trace) - 600 * (n + 2)))
+            lines = fh.read().decode(errors="replace").splitlines()[1:]
+        recs = [json.loads(x) for x in lines if x.startswith("{")]
+        return [r for r in recs if r.get("e") not in ("Close", "Stats", "World")][-n:]
+    except (OSError, ValueError):
+        return []
+
+
+# ---------------------------------------------------------------------------- fixtures
+def fixture_files():
+    fs = sorted(glob.glob(os.path.join(vlib.REPO, "test/orange/data/*.org.json"))
+                + glob.glob(os.path.join(vlib.REPO, "test/geocel/data/*.org.json")))
+    return fs
+
+
+def fixtures(ctx, prefixes, nrays, nwalks, nprobes, maxpar=8, nshards=6):
+    """Straight rays + random protocol walks + safety probes on the bundled fixtures.
+    nrays/nwalks/nprobes are TOTALS, spread over the fixtures.  Returns totals dict."""
+    vlib.build(["vnav"])
+    fs = fixture_files()
+    skipped = {}
+    usable = []
+    for f in fs:
+        txt = open(f).read()
+        if '"inv"' in txt:
+            skipped[os.path.basename(f)] = "involute surfaces (reading them crashes: F-JSON-1; oracle unsupported)"
+            continue
+        dup = _duplicate_surface(json.loads(txt))
+        if dup:
+            # validity gate on the input: exactly coincident duplicate surfaces bound a zero-thickness
+            # volume (lead-box.org.json: `world` between two identical boxes at +-5e9)
+            skipped[os.path.basename(f)] = "degenerate input: unit '%s' has coincident duplicate surfaces %s" % dup
+            continue
+        usable.append(f)
+    n = len(usable)
+    per = lambda tot: max(1, (tot + n - 1) // n)
+    jobs = []
+    for i, f in enumerate(usable):
+        # the two geocel/orange duplicates get different seeds
+        base = "%02d_%s" % (i, os.path.basename(f).replace(".org.json", ""))
+        jobs.append((f, base, ctx.path(base + ".raw.ndjson"), ctx.path(base + ".ann.ndjson")))
+
+    def run(job):
+        f, base, raw, ann = job
+        r = _run_vnav(["fixture", f, ctx.seed + 17 * (jobs.index(job) + 1), per(nrays), per(nwalks), per(nprobes), raw], 1200)
+        if r.returncode != 0:
+            return ("harness", r.returncode, (r.stderr or "")[-1500:])
+        a = subprocess.run([VT_PY, os.path.join(vlib.ROOT, "tools", "navfacts.py"), f, raw, ann],
+                           stdout=subprocess.PIPE, stderr=subprocess.PIPE, text=True, timeout=3000)
+        if a.returncode == 7:
+            return ("unsupported", 7, a.stdout.strip())
+        if a.returncode != 0:
+            return ("oracle", a.returncode, a.stderr[-1500:])
+        return ("ok", 0, json.loads(a.stdout.strip().splitlines()[-1]))
+    with cf.ThreadPoolExecutor(max_workers=maxpar) as ex:
+        outs = list(ex.map(run, jobs))
+    good = []
+    tot = {"fixtures": 0, "records": 0, "oracle_queries": 0, "discarded": {}, "facts": {"T": 0, "F": 0, "U": 0},
+           "skipped": skipped, "stat": {}, "dev": {}, "other_clauses": set()}
+    for job, (kind, rc, info) in zip(jobs, outs):
+        f, base, raw, ann = job
+        if kind == "unsupported":
+            skipped[os.path.basename(f)] = "oracle: " + str(info)
+            continue
+        if kind == "harness":
+            if rc == 124:
+                ctx.violation("vnav fixture on %s timed out" % f, tags={"clause": "C03.ExitsWorld", "fixture": os.path.basename(f)})
+                continue
+            if not _closed(raw):
+                # crash of the navigator inside the harness: the trace has no Close record
+                ctx.violation("vnav crashed on fixture %s (exit %d): %s" % (f, rc, info),
+                              tags={"clause": "C03.Abort", "fixture": os.path.basename(f)}, files=[raw])
+                continue
+            raise vlib.Broken("vnav fixture %s failed (exit %d): %s" % (f, rc, info))
+        if kind == "oracle":
+            raise vlib.Broken("navfacts/oracle failed on %s: %s" % (f, info))
+        good.append(job)
+        tot["fixtures"] += 1
+        tot["records"] += info["records"]
+        tot["oracle_queries"] += info["queries"]
+        for k, v in info["discarded"].items():
+            tot["discarded"][k] = tot["discarded"].get(k, 0) + v
+        for k, v in info["facts"].items():
+            tot["facts"][k] = tot["facts"].get(k, 0) + v
+    # shards: concatenated annotated traces, remember the record ranges
+    groups = vlib.shards(good, nshards)
+    tj, ranges = [], []
+    for gi, g in enumerate(groups):
+        path = ctx.path("fixtures_%02d.ndjson" % gi)
+        rng = []
+        line = 0
+        with open(path, "w") as fh:
+            for job in g:
+                with open(job[3]) as src:
+                    txt = src.read()
+                k = txt.count("\n")
+                rng.append((line + 1, line + k, job))
+                line += k
+                fh.write(txt)
+        ranges.append(rng)
+        tj.append(dict(module="RayNavTrace", cfg="RayNavTrace", workers=1, env=dict(JVM, TRACE=path), timeout=3000, heap="3g"))
+    res = vlib.tlc_parallel(tj, maxpar=maxpar)
+    samples = []
+    for gi, (g, r) in enumerate(zip(groups, res)):
+        path = ctx.path("fixtures_%02d.ndjson" % gi)
+        m = re.search(r'<<"SUMMARY", "(.*)">>', r.out)
+        if r.code != 0 or not m:
+            if "REJECTED" in r.out or r.violated:
+                raise vlib.Broken("fixture trace shard %d rejected for a protocol-order reason (harness/annotator fault):\n%s"
+                                  % (gi, vlib.rejected_info(r)))
+            raise vlib.Broken("TLC failed on fixture shard %d (exit %d):\n%s" % (gi, r.code, r.out[-3000:]))
+        summ = json.loads(m.group(1).replace('\\"', '"'))
+        for k, v in summ["stat"].items():
+            tot["stat"][k] = tot["stat"].get(k, 0) + v
+
+        def where(lno):
+            for a, b, job in ranges[gi]:
+                if a <= lno <= b:
+                    return job, lno - a + 1
+            return None, lno
+        viol = summ["viol"] if isinstance(summ["viol"], dict) else {}
+        for clause, v in sorted(viol.items()):
+            job, rel = where(v["first"])
+            fx = os.path.basename(job[0]) if job else "?"
+            if any(clause.startswith(p) for p in prefixes):
+                ctx.violation("clause %s violated on fixture %s (%d hits in shard %d; first at record %d of %s)\n%s"
+                              % (clause, fx, v["n"], gi, rel, os.path.basename(job[3]) if job else "?",
+                                 _context(job[2], job[3], rel) if job else ""),
+                              tags={"clause": clause, "fixture": fx}, files=[job[2], job[3]] if job else [path])
+            else:
+                tot["other_clauses"].add(clause)
+        devs = summ["dev"] if isinstance(summ["dev"], dict) else {}
+        for dname, v in sorted(devs.items()):
+            job, rel = where(v["first"])
+            fx = os.path.basename(job[0]) if job else "?"
+            tot["dev"][dname] = tot["dev"].get(dname, 0) + v["n"]
+            if any(p.startswith("C03") for p in prefixes):
+                ctx.violation("named deviation %s: %d hits on fixture %s (first at record %d)\n%s"
+                              % (dname, v["n"], fx, rel, _context(job[2], job[3], rel) if job else ""),
+                              tags={"deviation": dname, "fixture": fx}, files=[job[2], job[3]] if job else [path])
+        if g and len(samples) < 3:
+            recs = vlib.read_ndjson(g[0][2])
+            samples.append({"fixture": os.path.basename(g[0][0]), "raw_records": recs[1:6]})
+    tot["other_clauses"] = sorted(tot["other_clauses"])
+    return tot, samples
+
+
+def _duplicate_surface(j):
+    for u in j.get("universes", []):
+        sf = u.get("surfaces")
+        if not isinstance(sf, dict) or "types" not in sf:
+            continue
+        off, seen = 0, set()
+        for t, n in zip(sf["types"], sf["sizes"]):
+            key = (t, tuple(sf["data"][off:off + n]))
+            off += n
+            if key in seen:
+                return (u.get("md", {}).get("name", "?"), "%s%s" % key)
+            seen.add(key)
+    return None
+
+
+def _context(raw, ann, rel, before=6):
+    try:
+        rr = vlib.read_ndjson(raw)
+        aa = vlib.read_ndjson(ann)
+    except OSError:
+        return ""
+    lo = max(0, rel - 1 - before)
+    # back to the Init of this history
+    k = rel - 1
+    while k > 0 and rr[k].get("e") != "Init":
+        k -= 1
+    lo = max(k, rel - 1 - 12)
+    out = []
+    if lo > k:
+        out.append("  " + json.dumps(rr[k])[:300])
+        out.append("  ...")
+    for i in range(lo, rel):
+        facts = {x: aa[i][x] for x in aa[i] if x.startswith("f_") or x in ("cmp", "d_is", "rays_ok", "sphere_ok", "dcls")}
+        raw_r = {x: rr[i][x] for x in rr[i] if x not in ("path", "lev", "slev", "bres")}
+        out.append("  " + json.dumps(raw_r)[:330] + "  facts=" + json.dumps(facts))
+    return "\n".join(out)
